@@ -83,7 +83,7 @@ def Frame.unpack (f : Frame) (buf : Bytes) (extract : Bool) : Frame × R Unit :=
         if extract then
           match structUnpackFrom MF_unpack_fmt0 buf (8 + hl) with
           | .ok [msw, lsw, sfid] =>
-            ({ f2 with sfid := some sfid, syncword := some (lsw + msw * 65536), data := buf.drop (hl + TS_LEN) }, .ok ())
+            ({ f2 with sfid := some sfid, syncword := some (lsw + 65536 * msw), data := buf.drop (hl + TS_LEN) }, .ok ())
           | .ok _ => (f2, .error .struct)
           | .error e => (f2, .error e)
         else ({ f2 with data := buf.drop (hl + TS_LEN) }, .ok ())
